@@ -38,6 +38,11 @@ def gen_population(rng, exact=False):
         G = [[x + rng.uniform(-1, 1) * s for x in c] for _ in range(n)]
     else:
         G = [[rng.uniform(-5, 5) for _ in range(dim)] for _ in range(n)]
+    if rng.random() < 0.12:
+        # the same cloud far from the origin (exactly representable offsets): distances must not be computed through cancelling terms
+        off = rng.choice([2.0 ** 27, 3.0e9, 5.0e8, -2.0 ** 30])
+        G = [[float(round(x * 16) / 16.0) + off for x in g] for g in G]
+        kind = kind + "+offset"
     # pairwise distinct genomes (the property's domain)
     seen, G2 = set(), []
     for g in G:
